@@ -96,6 +96,22 @@ def handle (op : String) (args impl : List String) : Option String :=
       if impl != spec ++ spec then some s!"fail default-events model={joinSp (m ++ m)}"
       else if m ++ m != impl then some s!"disagree model={joinSp (m ++ m)}"
       else some "ok default"
+  | "sun.off", [_place, day, ev, off] =>
+    -- "the four events and their offsets": the start of `(event±HH:MM)-48:00` as the real evaluator
+    -- resolves it must be the event's minute plus the offset, 00:00 when that sum leaves 00:00..48:00
+    match day.toInt?, ev.toNat?, off.toInt?, impl with
+    | some d, some ev, some off, [evm, start] =>
+      match evm.toNat? with
+      | none => none
+      | some evm =>
+        let e : TimeEvent := match ev with | 0 => .dawn | 1 => .sunrise | 2 => .sunset | _ => .dusk
+        let ctx := sunCtx (fun _ _ => evm)
+        let want := (Time.variable e off).asNaive ctx d
+        -- a start at 48:00 leaves nothing to see
+        let wantTok := if want ≥ 2880 then "-" else toString want
+        if start != wantTok then some s!"fail offset-arithmetic model={wantTok}"
+        else some s!"ok off{if off < 0 then "-" else if off > 0 then "+" else "0"}{if (evm : Int) + off < 0 then "lo" else if (evm : Int) + off ≥ 1440 then "hi" else ""}"
+    | _, _, _, _ => none
   | "sun.coords", [la, lo] =>
     match la.toNat?, lo.toNat? with
     | some la, some lo =>
